@@ -212,110 +212,277 @@ theorem dget_zipIdx (ns : List String) (k : Nat) (s : String) :
 theorem dget_zipNames (ns : List String) (s : String) : dget (zipNames ns) s = posOf ns s := by
   simp [zipNames, dget_zipIdx]
 
-/-! ### header maps after dropping columns -/
+/-! ## finite maps as association lists -/
 
-theorem ext_hdr_aux (ns : List String) (s : Nat) (pre : List Nat) (p : Nat → Bool) (hpre : ∀ i ∈ pre, i < s) :
-    (ns.zipIdx s).filterMap (fun q => (posOf (pre ++ (List.range' s ns.length).filter p) q.2).map (fun e => (q.1, e)))
-    = (((List.range' s ns.length).filter p).filterMap (fun i => ns[i - s]?)).zipIdx pre.length := by
-  induction ns generalizing s pre with
+section fm
+variable {κ ν : Type} [DecidableEq κ]
+
+theorem dget_append (a b : List (κ × ν)) (k : κ) :
+    dget (a ++ b) k = match dget a k with | some v => some v | none => dget b k := by
+  induction a with
+  | nil => rfl
+  | cons p t ih =>
+    obtain ⟨x, y⟩ := p
+    simp only [List.cons_append, dget]
+    split <;> simp_all
+
+theorem dget_isSome_iff_mem (d : List (κ × ν)) (k : κ) : (dget d k).isSome ↔ k ∈ d.map (·.1) := by
+  induction d with
+  | nil => simp [dget]
+  | cons p t ih =>
+    obtain ⟨x, y⟩ := p
+    simp only [dget, List.map_cons, List.mem_cons]
+    split
+    · rename_i h; simp [h]
+    · rename_i h
+      rw [ih]
+      constructor
+      · intro hm; exact Or.inr hm
+      · intro hm; rcases hm with hm | hm
+        · exact absurd hm.symm h
+        · exact hm
+
+theorem dget_none_iff_not_mem (d : List (κ × ν)) (k : κ) : dget d k = none ↔ k ∉ d.map (·.1) := by
+  rw [← dget_isSome_iff_mem]; cases dget d k <;> simp
+
+theorem dget_some_mem {d : List (κ × ν)} {k : κ} {v : ν} (h : dget d k = some v) : (k, v) ∈ d := by
+  induction d with
+  | nil => simp [dget] at h
+  | cons p t ih =>
+    obtain ⟨x, y⟩ := p
+    simp only [dget] at h
+    split at h
+    · rename_i hx; simp at h; subst hx; subst h; simp
+    · exact List.mem_cons_of_mem _ (ih h)
+
+theorem dget_of_mem_nodup {d : List (κ × ν)} {k : κ} {v : ν} (hn : (d.map (·.1)).Nodup) (h : (k, v) ∈ d) : dget d k = some v := by
+  induction d with
+  | nil => simp at h
+  | cons p t ih =>
+    obtain ⟨x, y⟩ := p
+    simp only [List.map_cons, List.nodup_cons] at hn
+    simp only [List.mem_cons, Prod.mk.injEq] at h
+    simp only [dget]
+    rcases h with ⟨rfl, rfl⟩ | h
+    · simp
+    · have : x ≠ k := by
+        intro hx; subst hx
+        exact hn.1 (List.mem_map.2 ⟨(x, v), h, rfl⟩)
+      simp [this, ih hn.2 h]
+
+theorem dget_filter_key (d : List (κ × ν)) (q : κ → Bool) (k : κ) :
+    dget (d.filter (fun p => q p.1)) k = if q k then dget d k else none := by
+  induction d with
+  | nil => simp [dget]
+  | cons p t ih =>
+    obtain ⟨x, y⟩ := p
+    simp only [List.filter_cons]
+    by_cases hq : q x = true
+    · simp only [hq, if_true, dget]
+      by_cases hx : x = k
+      · subst hx; simp [hq]
+      · simp [hx, ih]
+    · simp only [hq, dget]
+      by_cases hx : x = k
+      · subst hx; simp [hq, ih]
+      · simp [hx, ih]
+
+/-- `dict(pairs)` of pairs with distinct keys is the list itself -/
+theorem foldl_dset_append (acc its : List (κ × ν))
+    (h : (its.map (·.1)).Nodup) (hd : ∀ k ∈ its.map (·.1), k ∉ acc.map (·.1)) :
+    its.foldl (fun d p => dset d p.1 p.2) acc = acc ++ its := by
+  induction its generalizing acc with
   | nil => simp
-  | cons x t ih =>
-    have hs : s ∉ pre := fun h => Nat.lt_irrefl _ (hpre s h)
-    have hrest : ∀ i ∈ (List.range' (s + 1) t.length).filter p, s + 1 ≤ i := fun i hi => (mem_filter_range' hi).1
-    have hcongr : ∀ l : List Nat, (∀ i ∈ l, s + 1 ≤ i) →
-        l.filterMap (fun i => (x :: t)[i - s]?) = l.filterMap (fun i => t[i - (s + 1)]?) := by
-      intro l hl
-      induction l with
+  | cons p t ih =>
+    obtain ⟨x, y⟩ := p
+    simp only [List.map_cons, List.nodup_cons] at h
+    have hx : x ∉ acc.map (·.1) := hd x (by simp)
+    have hset : dset acc x y = acc ++ [(x, y)] := by
+      clear ih hd
+      induction acc with
       | nil => rfl
-      | cons a l ihl =>
-        have ha := hl a (by simp)
-        have : a - s = (a - (s + 1)) + 1 := by omega
-        simp only [List.filterMap_cons, this, List.getElem?_cons_succ]
-        rw [ihl (fun i hi => hl i (by simp [hi]))]
-    simp only [List.length_cons, List.range'_succ, List.zipIdx_cons, List.filter_cons, List.filterMap_cons]
-    by_cases hp : p s = true
-    · simp only [hp, if_true]
-      have h0 : posOf (pre ++ s :: (List.range' (s + 1) t.length).filter p) s = some pre.length := by
-        rw [posOf_append_of_not_mem hs]; simp [posOf]
-      simp only [h0, Option.map_some, List.filterMap_cons, Nat.sub_self, List.getElem?_cons_zero, List.zipIdx_cons]
-      have hpre' : ∀ i ∈ pre ++ [s], i < s + 1 := by
-        intro i hi
-        rcases List.mem_append.1 hi with h | h
-        · exact Nat.lt_succ_of_lt (hpre i h)
-        · simp at h; omega
-      have := ih (s + 1) (pre ++ [s]) hpre'
-      simp only [List.append_assoc, List.singleton_append, List.length_append, List.length_singleton] at this
-      rw [this, hcongr _ hrest]
-    · simp only [hp]
-      have hnot : s ∉ (List.range' (s + 1) t.length).filter p := fun h => by have := hrest s h; omega
-      have h0 : posOf (pre ++ (List.range' (s + 1) t.length).filter p) s = none :=
-        posOf_none_of_not_mem (by simp [hs, hnot])
-      simp only [h0, Option.map_none, Bool.false_eq_true, if_false]
-      have hpre' : ∀ i ∈ pre, i < s + 1 := fun i hi => Nat.lt_succ_of_lt (hpre i hi)
-      rw [ih (s + 1) pre hpre', hcongr _ hrest]
+      | cons q u ihu =>
+        obtain ⟨a, b⟩ := q
+        simp only [List.map_cons, List.mem_cons, not_or] at hx
+        have : a ≠ x := fun h' => hx.1 h'.symm
+        simp [dset, this, ihu hx.2]
+    simp only [List.foldl_cons, hset]
+    rw [ih (acc ++ [(x, y)]) h.2]
+    · simp
+    · intro k hk
+      simp only [List.map_append, List.map_cons, List.map_nil, List.mem_append, List.mem_singleton, not_or]
+      refine ⟨hd k (by simp [hk]), ?_⟩
+      intro hkx; subst hkx; exact h.1 hk
 
-/-- the external header map computed by `make_drop_row_args` names the kept columns in order -/
-theorem ext_hdr (ns : List String) (p : Nat → Bool) :
-    (zipNames ns).filterMap (fun q => (posOf ((List.range ns.length).filter p) q.2).map (fun e => (q.1, e)))
-    = zipNames (((List.range ns.length).filter p).filterMap (fun i => ns[i]?)) := by
-  have := ext_hdr_aux ns 0 [] p (by simp)
-  simpa [zipNames, List.range_eq_range'] using this
+end fm
 
-theorem shift_above (t : List String) (k ind : Nat) (h : ind < k) :
-    DRow.shiftHdr ind (t.zipIdx k) = t.zipIdx (k - 1) := by
-  induction t generalizing k with
-  | nil => rfl
+theorem toDict_of_nodup (its : Dict) (h : (its.map (·.1)).Nodup) : SRow.toDict its = its := by
+  have := foldl_dset_append ([] : Dict) its h (by simp)
+  simpa [SRow.toDict] using this
+
+/-! ### dedup / kdiff / kunion -/
+
+theorem mem_dedup {α} [DecidableEq α] (l : List α) (a : α) : a ∈ dedup l ↔ a ∈ l := by
+  induction l with
+  | nil => simp [dedup]
   | cons x t ih =>
-    have h1 : ¬ k = ind := by omega
-    have h2 : ¬ k < ind := by omega
-    have h3 : k + 1 - 1 = k - 1 + 1 := by omega
-    simp only [DRow.shiftHdr, List.zipIdx_cons, List.filterMap_cons, h1, h2, if_false]
-    have := ih (k + 1) (by omega)
-    simp only [DRow.shiftHdr] at this
-    rw [this, h3]
+    simp only [dedup]
+    split
+    · rename_i hx
+      rw [ih]; constructor
+      · exact fun h => List.mem_cons_of_mem _ h
+      · intro h; rcases List.mem_cons.1 h with rfl | h
+        · exact hx
+        · exact h
+    · simp [ih]
 
-theorem shift_zipIdx (ns : List String) (k ind : Nat) (h : k ≤ ind) :
-    DRow.shiftHdr ind (ns.zipIdx k) = (ns.eraseIdx (ind - k)).zipIdx k := by
-  induction ns generalizing k with
-  | nil => rfl
+theorem nodup_dedup {α} [DecidableEq α] (l : List α) : (dedup l).Nodup := by
+  induction l with
+  | nil => simp [dedup]
   | cons x t ih =>
-    by_cases hk : k = ind
-    · subst hk
-      have := shift_above t (k + 1) k (by omega)
-      simp only [DRow.shiftHdr] at this
-      simp [DRow.shiftHdr, List.zipIdx_cons, this]
-    · have h1 : k < ind := by omega
-      have h2 : ind - k = (ind - (k + 1)) + 1 := by omega
-      have := ih (k + 1) (by omega)
-      simp only [DRow.shiftHdr] at this
-      simp only [DRow.shiftHdr, List.zipIdx_cons, List.filterMap_cons, hk, h1, if_true, if_false, h2, List.eraseIdx_cons_succ]
-      rw [this]
+    simp only [dedup]
+    split
+    · exact ih
+    · rename_i hx
+      exact List.nodup_cons.2 ⟨by rwa [mem_dedup], ih⟩
 
-theorem shift_zipNames (ns : List String) (ind : Nat) :
-    DRow.shiftHdr ind (zipNames ns) = zipNames (ns.eraseIdx ind) := by
-  simpa [zipNames] using shift_zipIdx ns 0 ind (Nat.zero_le _)
+theorem mem_kdiff (b a : List Key) (k : Key) : k ∈ kdiff b a ↔ k ∈ b ∧ k ∉ a := by
+  simp [kdiff, mem_dedup, List.mem_filter]
 
-theorem sel_aux {β} (ns : List String) (a b : Nat) (f : Nat → Option String → β) :
-    ((ns.zipIdx a).zipIdx b).map (fun p => f p.2 (some p.1.1)) = (List.range' b ns.length).map (fun j => f j (ns[j - b]?)) := by
-  induction ns generalizing a b with
+theorem nodup_kdiff (b a : List Key) : (kdiff b a).Nodup := nodup_dedup _
+
+theorem mem_kunion (a b : List Key) (k : Key) : k ∈ kunion a b ↔ k ∈ a ∨ k ∈ b := by
+  simp only [kunion, List.mem_append, mem_kdiff]
+  by_cases h : k ∈ a <;> simp [h]
+
+theorem nodup_kunion (a b : List Key) (ha : a.Nodup) : (kunion a b).Nodup := by
+  simp only [kunion]
+  rw [List.nodup_append]
+  refine ⟨ha, nodup_kdiff _ _, ?_⟩
+  intro x hx y hy hxy
+  subst hxy
+  exact ((mem_kdiff _ _ _).1 hy).2 hx
+
+/-- two duplicate-free lists with the same members have the same length -/
+theorem length_eq_of_same_members {α} (l1 l2 : List α) (h1 : l1.Nodup) (h2 : l2.Nodup) (h : ∀ a, a ∈ l1 ↔ a ∈ l2) :
+    l1.length = l2.length :=
+  ((List.perm_ext_iff_of_nodup h1 h2).2 h).length_eq
+
+theorem kdiff_congr (b a a' : List Key) (h : ∀ k, k ∈ a ↔ k ∈ a') : kdiff b a = kdiff b a' := by
+  simp only [kdiff]
+  congr 1
+  apply List.filter_congr
+  intro k _
+  have := h k
+  by_cases hk : k ∈ a
+  · simp [hk, this.1 hk]
+  · have hk' : k ∉ a' := fun h' => hk (this.2 h')
+    simp [hk, hk']
+
+
+
+
+/-! ### header maps (name → column, any order, possibly partial) -/
+
+theorem hdrWF_iff (h : Hdr) (n : Nat) :
+    hdrWF h n = true ↔ (h.map (·.1)).Nodup ∧ (h.map (·.2)).Nodup ∧ ∀ p ∈ h, p.2 < n := by
+  simp [hdrWF, List.all_eq_true, and_assoc]
+
+theorem dget_swap_nameOf (h : Hdr) (i : Nat) : dget (h.map (fun p => (p.2, p.1))) i = nameOf h i := by
+  induction h with
   | nil => rfl
-  | cons x t ih =>
-    simp only [List.zipIdx_cons, List.map_cons, List.length_cons, List.range'_succ, Nat.sub_self, List.getElem?_cons_zero]
-    rw [ih (a + 1) (b + 1)]
-    congr 1
-    apply List.map_congr_left
-    intro j hj
-    rw [List.mem_range'] at hj
-    obtain ⟨i, _, rfl⟩ := hj
-    have : b + 1 + 1 * i - b = (b + 1 + 1 * i - (b + 1)) + 1 := by omega
-    rw [this, List.getElem?_cons_succ]
+  | cons p t ih =>
+    simp only [List.map_cons, dget, nameOf, List.find?_cons]
+    by_cases hp : p.2 = i
+    · simp [hp]
+    · simp only [hp, if_false, decide_false]
+      simpa [nameOf] using ih
+
+/-- with distinct columns, the `{i:h}` dict EncodeRows / DropRows build names column `i` as the header map does -/
+theorem posName_eq_nameOf (h : Hdr) (hn : (h.map (·.2)).Nodup) (i : Nat) : posName h i = nameOf h i := by
+  have h1 : posNames h = h.map (fun p => (p.2, p.1)) := by
+    have := foldl_dset_append ([] : List (Nat × String)) (h.map (fun p => (p.2, p.1)))
+      (by simpa [Function.comp_def] using hn) (by simp)
+    simp only [List.nil_append] at this
+    rw [← this]
+    simp only [posNames, List.foldl_map]
+  simp only [posName, h1, dget_swap_nameOf]
+
+theorem extHdr_names_sublist (idxs : List Nat) (h : Hdr) : ((extHdr idxs h).map (·.1)).Sublist (h.map (·.1)) := by
+  induction h with
+  | nil => simp [extHdr]
+  | cons p t ih =>
+    simp only [extHdr, List.filterMap_cons] at ih ⊢
+    cases hp : posOf idxs p.2 with
+    | none => simp only [Option.map_none]; exact ih.cons _
+    | some j => simp only [Option.map_some, List.map_cons]; exact ih.cons_cons _
+
+theorem mem_extHdr {idxs : List Nat} {h : Hdr} {q : String × Nat} (hq : q ∈ extHdr idxs h) :
+    ∃ b, (q.1, b) ∈ h ∧ posOf idxs b = some q.2 := by
+  simp only [extHdr, List.mem_filterMap] at hq
+  obtain ⟨p, hp, hpe⟩ := hq
+  cases hpo : posOf idxs p.2 with
+  | none => simp [hpo] at hpe
+  | some j => simp [hpo] at hpe; subst hpe; exact ⟨p.2, hp, hpo⟩
+
+theorem dget_extHdr (idxs : List Nat) (h : Hdr) (hn : (h.map (·.1)).Nodup) (s : String) :
+    dget (extHdr idxs h) s = (dget h s).bind (posOf idxs) := by
+  induction h with
+  | nil => rfl
+  | cons p t ih =>
+    obtain ⟨a, b⟩ := p
+    simp only [List.map_cons, List.nodup_cons] at hn
+    have ih' := ih hn.2
+    simp only [extHdr, List.filterMap_cons] at ih' ⊢
+    by_cases ha : a = s
+    · subst ha
+      simp only [dget, if_true, Option.bind]
+      cases hp : posOf idxs b with
+      | some j => simp [dget]
+      | none =>
+        simp only [Option.map_none]
+        rw [dget_none_iff_not_mem]
+        intro hm
+        exact hn.1 ((extHdr_names_sublist idxs t).subset hm)
+    · simp only [dget, ha, if_false]
+      cases hp : posOf idxs b with
+      | some j => simp only [Option.map_some, dget, ha, if_false]; exact ih'
+      | none => simp only [Option.map_none]; exact ih'
+
+theorem extHdr_wf (idxs : List Nat) (h : Hdr) (hn : (h.map (·.1)).Nodup) (hp : (h.map (·.2)).Nodup) :
+    hdrWF (extHdr idxs h) idxs.length = true := by
+  rw [hdrWF_iff]
+  refine ⟨(extHdr_names_sublist idxs h).nodup hn, ?_, ?_⟩
+  · induction h with
+    | nil => simp [extHdr]
+    | cons p t ih =>
+      simp only [List.map_cons, List.nodup_cons] at hn hp
+      have iht := ih hn.2 hp.2
+      simp only [extHdr, List.filterMap_cons] at iht ⊢
+      cases hpo : posOf idxs p.2 with
+      | none => simpa using iht
+      | some j =>
+        simp only [Option.map_some, List.map_cons, List.nodup_cons]
+        refine ⟨?_, iht⟩
+        intro hm
+        obtain ⟨q, hq, hqe⟩ := List.mem_map.1 hm
+        obtain ⟨b, hb, hbo⟩ := mem_extHdr (idxs := idxs) (h := t) hq
+        rw [hqe] at hbo
+        have e1 := posOf_some_getElem? hpo
+        have e2 := posOf_some_getElem? hbo
+        rw [e1] at e2
+        have : p.2 = b := Option.some.inj e2
+        exact hp.1 (List.mem_map.2 ⟨(q.1, b), hb, this.symm⟩)
+  · intro q hq
+    obtain ⟨b, _, hbo⟩ := mem_extHdr hq
+    exact posOf_lt hbo
 
 
 /-! ## dense refinement -/
 
-/-- well-formed eager dense row: a header names every column once, the label column exists -/
+/-- well-formed eager dense row: the header map has distinct names and distinct, existing columns; the label column exists -/
 structure WFD (e : EagerD) : Prop where
-  names : ∀ ns, e.names = some ns → namesOK ns e.cells.length
+  hdr : ∀ h, e.hdr = some h → hdrWF h e.cells.length = true
   lab : ∀ i t, e.lab = some (i, t) → i < e.cells.length
 
 /-- the lazy row `r` is indistinguishable from the eager row `e` (label part apart) -/
@@ -323,7 +490,7 @@ structure RefD (r : DRow) (e : EagerD) : Prop where
   iter : r.iter = .ok e.cells
   len : r.len = e.cells.length
   pos : ∀ i, r.getPos i = idx e.cells i
-  hdr : r.headers.toOption = e.names.map zipNames
+  hdr : r.headers.toOption = e.hdr
   name : ∀ s v, e.byName s = some v → r.getName s = .ok v
   miss : r.missing.toOption = e.miss
 
@@ -335,20 +502,30 @@ theorem toOption_eq_none {α} {x : Res α} (h : x.toOption = none) : ∃ e, x = 
   | error e => exact ⟨e, rfl⟩
   | ok a => simp [Except.toOption] at h
 
-/-- a by-name lookup on the eager row, seen through a header map that matches its names -/
-theorem byName_via_hdr {e : EagerD} {hd : Res Hdr} (hh : hd.toOption = e.names.map zipNames) {s : String} {v : Val}
+/-- a by-name lookup on the eager row, seen through the row's header map -/
+theorem byName_via_hdr {e : EagerD} {hd : Res Hdr} (hh : hd.toOption = e.hdr) {s : String} {v : Val}
     (hb : e.byName s = some v) : ∃ h i, hd = .ok h ∧ dget h s = some i ∧ e.cells[i]? = some v := by
   unfold EagerD.byName EagerD.colOf at hb
-  cases hn : e.names with
+  cases hn : e.hdr with
   | none => simp [hn] at hb
-  | some ns =>
+  | some h =>
     simp only [hn] at hb
-    cases hp : posOf ns s with
+    cases hp : dget h s with
     | none => simp [hp] at hb
     | some i =>
       simp only [hp] at hb
       rw [hn] at hh
-      exact ⟨zipNames ns, i, toOption_eq_some hh, by rw [dget_zipNames, hp], hb⟩
+      exact ⟨h, i, toOption_eq_some hh, hp, hb⟩
+
+theorem colOf_via_hdr {e : EagerD} {hd : Res Hdr} (hh : hd.toOption = e.hdr) {s : String} {i : Nat}
+    (hc : e.colOf s = some i) : ∃ h, hd = .ok h ∧ dget h s = some i := by
+  unfold EagerD.colOf at hc
+  cases hn : e.hdr with
+  | none => simp [hn] at hc
+  | some h =>
+    simp only [hn] at hc
+    rw [hn] at hh
+    exact ⟨h, toOption_eq_some hh, hc⟩
 
 theorem RefD.get {r : DRow} {e : EagerD} (h : RefD r e) (k : Key) (v : Val) (hk : e.get k = some v) : r.get k = .ok v := by
   cases k with
@@ -376,13 +553,13 @@ theorem zipWith_getElem?_of_map_ok {α β} {f : α → β → Res β} {es : List
   | some c => rw [hc] at this; simp at this; exact ⟨c, rfl, this⟩
 
 /-- LazyDense with encoders -/
-theorem refD_lazy_enc (c : Cell (List Val)) (es : List Enc) (v cells : List Val) (ns : Option (List String)) (m : Bool) (lab)
+theorem refD_lazy_enc (c : Cell (List Val)) (es : List Enc) (v cells : List Val) (hd : Option Hdr) (m : Bool) (lab)
     (hc : c.get = v) (hl : es.length = v.length) (hs : sequence (List.zipWith lazyApply es v) = .ok cells) :
-    RefD (.lazy c (some es) (ns.map zipNames) m) ⟨cells, ns, lab, some m⟩ := by
+    RefD (.lazy c (some es) hd m) ⟨cells, hd, lab, some m⟩ := by
   have hz := sequence_ok hs
   have hlen : cells.length = v.length := by
     have := sequence_length hs; simp [List.length_zipWith, hl] at this; exact this
-  have hpos : ∀ i, (DRow.lazy c (some es) (ns.map zipNames) m).getPos i = idx cells i := by
+  have hpos : ∀ i, (DRow.lazy c (some es) hd m).getPos i = idx cells i := by
     intro i
     simp only [DRow.getPos, hc]
     by_cases hi : i < v.length
@@ -404,45 +581,41 @@ theorem refD_lazy_enc (c : Cell (List Val)) (es : List Enc) (v cells : List Val)
       subst this; simp [sequence] at hs; subst hs; rfl
     | cons e0 et => exact hs
   · simp [DRow.len, hc, hlen]
-  · cases ns <;> rfl
+  · cases hd <;> rfl
   · intro s x hb
-    obtain ⟨h, i, hh, hd, hci⟩ := byName_via_hdr (e := ⟨cells, ns, lab, some m⟩) (hd := (DRow.lazy c (some es) (ns.map zipNames) m).headers) (by cases ns <;> rfl) hb
-    cases ns with
+    obtain ⟨h, i, hh, hdg, hci⟩ := byName_via_hdr (e := ⟨cells, hd, lab, some m⟩) (hd := (DRow.lazy c (some es) hd m).headers) (by cases hd <;> rfl) hb
+    cases hd with
     | none => simp [DRow.headers] at hh
     | some nn =>
-      simp only [DRow.headers, Option.map] at hh
+      simp only [DRow.headers] at hh
       cases hh
-      simp only [DRow.getName, Option.map, hd]
-      have := hpos i
-      simp only [Option.map] at this
-      rw [this, idx_of_some hci]
+      simp only [DRow.getName, hdg]
+      rw [hpos i, idx_of_some hci]
 
 /-- LazyDense without encoders -/
-theorem refD_lazy_plain (c : Cell (List Val)) (enc : Option (List Enc)) (v : List Val) (ns : Option (List String)) (m : Bool) (lab)
+theorem refD_lazy_plain (c : Cell (List Val)) (enc : Option (List Enc)) (v : List Val) (hd : Option Hdr) (m : Bool) (lab)
     (hc : c.get = v) (he : enc = none ∨ enc = some []) :
-    RefD (.lazy c enc (ns.map zipNames) m) ⟨v, ns, lab, some m⟩ := by
-  have hpos : ∀ i, (DRow.lazy c enc (ns.map zipNames) m).getPos i = idx v i := by
+    RefD (.lazy c enc hd m) ⟨v, hd, lab, some m⟩ := by
+  have hpos : ∀ i, (DRow.lazy c enc hd m).getPos i = idx v i := by
     intro i
     rcases he with rfl | rfl <;> simp only [DRow.getPos, hc] <;> cases idx v i <;> rfl
   refine ⟨?_, ?_, hpos, ?_, ?_, rfl⟩
   · rcases he with rfl | rfl <;> simp [DRow.iter, hc]
   · simp [DRow.len, hc]
-  · cases ns <;> rfl
+  · cases hd <;> rfl
   · intro s x hb
-    obtain ⟨h, i, hh, hd, hci⟩ := byName_via_hdr (e := ⟨v, ns, lab, some m⟩) (hd := (DRow.lazy c enc (ns.map zipNames) m).headers) (by cases ns <;> rfl) hb
-    cases ns with
+    obtain ⟨h, i, hh, hdg, hci⟩ := byName_via_hdr (e := ⟨v, hd, lab, some m⟩) (hd := (DRow.lazy c enc hd m).headers) (by cases hd <;> rfl) hb
+    cases hd with
     | none => simp [DRow.headers] at hh
     | some nn =>
-      simp only [DRow.headers, Option.map] at hh
+      simp only [DRow.headers] at hh
       cases hh
-      simp only [DRow.getName, Option.map, hd]
-      have := hpos i
-      simp only [Option.map] at this
-      rw [this, idx_of_some hci]
+      simp only [DRow.getName, hdg]
+      rw [hpos i, idx_of_some hci]
 
 
-theorem refD_head {r : DRow} {e : EagerD} (h : RefD r e) (ns : List String) :
-    RefD (.head r (zipNames ns)) { e with names := some ns } where
+theorem refD_head {r : DRow} {e : EagerD} (h : RefD r e) (hd : Hdr) :
+    RefD (.head r hd) { e with hdr := some hd } where
   iter := h.iter
   len := h.len
   pos := h.pos
@@ -450,26 +623,13 @@ theorem refD_head {r : DRow} {e : EagerD} (h : RefD r e) (ns : List String) :
   name := by
     intro s v hb
     simp only [EagerD.byName, EagerD.colOf] at hb
-    cases hp : posOf ns s with
+    cases hp : dget hd s with
     | none => simp [hp] at hb
     | some i =>
       simp only [hp] at hb
-      simp only [DRow.getName, dget_zipNames, hp, h.pos i]
+      simp only [DRow.getName, hp, h.pos i]
       exact idx_of_some hb
   miss := h.miss
-
-theorem headMap_zip (m : List (String × Key)) (k : Nat) (h : m.map (·.2) = (List.range' k m.length).map Key.pos) :
-    m.filterMap hdrEntry = (m.map (·.1)).zipIdx k := by
-  induction m generalizing k with
-  | nil => rfl
-  | cons a t ih =>
-    simp only [List.map_cons, List.length_cons, List.range'_succ, List.cons.injEq] at h
-    obtain ⟨ha, ht⟩ := h
-    obtain ⟨nm, key⟩ := a
-    simp only at ha
-    subst ha
-    simp only [List.filterMap_cons, hdrEntry, List.map_cons, List.zipIdx_cons]
-    rw [ih (k + 1) ht]
 
 theorem refD_label {r : DRow} {e : EagerD} (h : RefD r e) (i : Nat) (t : Option String) (lab) :
     RefD (.label r i t) { e with lab := lab } where
@@ -512,7 +672,7 @@ theorem refD_encode {r : DRow} {e : EagerD} (h : RefD r e) (es : List Enc) (cell
     rw [hpos i]; exact idx_of_some hci
 
 theorem refD_dropOne {r : DRow} {e : EagerD} (h : RefD r e) (ind : Nat) (hi : ind < e.cells.length) :
-    RefD (.dropOne r ind) ⟨e.cells.eraseIdx ind, e.names.map (·.eraseIdx ind), none, e.miss⟩ := by
+    RefD (.dropOne r ind) ⟨e.cells.eraseIdx ind, e.hdr.map (DRow.shiftHdr ind), none, e.miss⟩ := by
   have hpos : ∀ i, (DRow.dropOne r ind).getPos i = idx (e.cells.eraseIdx ind) i := by
     intro i
     simp only [DRow.getPos, h.pos, idx, List.getElem?_eraseIdx]
@@ -521,24 +681,24 @@ theorem refD_dropOne {r : DRow} {e : EagerD} (h : RefD r e) (ind : Nat) (hi : in
       simp [hlt, this]
     · have : i ≥ ind := by omega
       simp [hlt, this]
-  have hhdr : (DRow.dropOne r ind).headers.toOption = (e.names.map (·.eraseIdx ind)).map zipNames := by
+  have hhdr : (DRow.dropOne r ind).headers.toOption = e.hdr.map (DRow.shiftHdr ind) := by
     have := h.hdr
     simp only [DRow.headers]
-    cases hn : e.names with
+    cases hn : e.hdr with
     | none =>
       rw [hn] at this
       obtain ⟨er, her⟩ := toOption_eq_none this
       simp [her, Except.toOption]
-    | some ns =>
+    | some hd =>
       rw [hn] at this
       rw [toOption_eq_some this]
-      simp [Except.toOption, shift_zipNames]
+      simp [Except.toOption]
   refine ⟨?_, ?_, hpos, hhdr, ?_, h.miss⟩
   · simp only [DRow.iter, h.iter, List.eraseIdx_eq_take_drop_succ]
   · simp [DRow.len, h.len, List.length_eraseIdx, hi]
   · intro s x hb
     obtain ⟨hd, i, hh, hdg, hci⟩ := byName_via_hdr
-      (e := ⟨e.cells.eraseIdx ind, e.names.map (·.eraseIdx ind), none, e.miss⟩) (hd := (DRow.dropOne r ind).headers) hhdr hb
+      (e := ⟨e.cells.eraseIdx ind, e.hdr.map (DRow.shiftHdr ind), none, e.miss⟩) (hd := (DRow.dropOne r ind).headers) hhdr hb
     simp only [DRow.getName, hh, hdg]
     rw [hpos i]; exact idx_of_some hci
 
@@ -548,16 +708,18 @@ theorem keptIdx_lt {e : EagerD} {cols : List Key} {i : Nat} (h : i ∈ keptIdx e
   have := (List.mem_filter.1 h).1
   simpa using this
 
-/-- what `make_drop_row_args` computes for a row that refines `e` -/
+/-- what `make_drop_row_args` computes for a row that refines `e` (any header map) -/
 theorem makeDropArgs_eq {r : DRow} {e : EagerD} (h : RefD r e) (hw : WFD e) (cols : List Key) :
     ∃ names sel hdr,
       dropArgsOf r cols = (keptIdx e cols, names, sel, (keptIdx e cols).length, hdr) ∧
       sel = (List.range e.cells.length).map (fun i => keepCol cols i (e.nameAt i)) ∧
-      (match e.names with | some ns => names = zipNames ns | none => True) ∧
+      (match e.hdr with | some hd => names = hd | none => True) ∧
       (DRow.keep r (keptIdx e cols) names sel (keptIdx e cols).length hdr).headers.toOption
-        = (e.names.map (fun ns => (keptIdx e cols).filterMap (fun i => ns[i]?))).map zipNames := by
+        = e.hdr.map (extHdr (keptIdx e cols)) := by
   have hh := h.hdr
-  cases hn : e.names with
+  have hidx : compress (List.range e.cells.length) ((List.range e.cells.length).map (fun i => keepCol cols i (e.nameAt i)))
+      = keptIdx e cols := by rw [compress_map_self]; rfl
+  cases hn : e.hdr with
   | none =>
     rw [hn] at hh
     obtain ⟨er, her⟩ := toOption_eq_none hh
@@ -565,39 +727,31 @@ theorem makeDropArgs_eq {r : DRow} {e : EagerD} (h : RefD r e) (hw : WFD e) (col
     refine ⟨[], _, none, ?_, rfl, trivial, ?_⟩
     · simp only [dropArgsOf, her, makeDropArgs, h.len, compress_map_self, keptIdx, hna]
     · simp [DRow.headers, her, Except.toOption]
-  | some ns =>
+  | some hd =>
     rw [hn] at hh
     have hok := toOption_eq_some hh
-    have hnl : ns.length = e.cells.length := (hw.names ns hn).1
-    have hna : ∀ i, e.nameAt i = ns[i]? := by intro i; simp [EagerD.nameAt, hn]
-    have hsel : (zipNames ns).zipIdx.map (fun p => keepCol cols p.2 (some p.1.1))
+    obtain ⟨_, hpn, _⟩ := (hdrWF_iff hd _).1 (hw.hdr hd hn)
+    have hsel : (List.range e.cells.length).map (fun i => keepCol cols i (posName hd i))
         = (List.range e.cells.length).map (fun i => keepCol cols i (e.nameAt i)) := by
-      have := sel_aux ns 0 0 (keepCol cols)
-      simp only [zipNames]
-      rw [this, List.range_eq_range', hnl]
-      simp [hna]
-    have hidx : compress (List.range e.cells.length) ((List.range e.cells.length).map (fun i => keepCol cols i (e.nameAt i)))
-        = keptIdx e cols := by rw [compress_map_self]; rfl
-    have hext : (zipNames ns).filterMap (fun p => (posOf (keptIdx e cols) p.2).map (fun e => (p.1, e)))
-        = zipNames ((keptIdx e cols).filterMap (fun i => ns[i]?)) := by
-      have := ext_hdr ns (fun i => keepCol cols i (e.nameAt i))
-      simpa [keptIdx, hnl] using this
-    refine ⟨zipNames ns, _, if (zipNames ns).isEmpty then none else some (zipNames ((keptIdx e cols).filterMap (fun i => ns[i]?))), ?_, rfl, rfl, ?_⟩
-    · simp only [dropArgsOf, hok, makeDropArgs, h.len, hsel, hidx, hext]
-    · by_cases hem : (zipNames ns).isEmpty = true
+      apply List.map_congr_left
+      intro i _
+      simp [EagerD.nameAt, hn, posName_eq_nameOf hd hpn i]
+    refine ⟨hd, _, if hd.isEmpty then none else some (extHdr (keptIdx e cols) hd), ?_, rfl, rfl, ?_⟩
+    · simp only [dropArgsOf, hok, makeDropArgs, h.len, hsel, hidx, extHdr]
+    · by_cases hem : hd.isEmpty = true
       · simp only [hem, if_true, DRow.headers, hok, Except.toOption, Option.map]
-        have : ns = [] := by cases ns <;> simp_all [zipNames]
-        subst this; simp [zipNames]
+        have : hd = [] := by cases hd <;> simp_all
+        subst this; simp [extHdr]
       · simp [hem, DRow.headers, Except.toOption]
 
 theorem refD_keep {r : DRow} {e : EagerD} (h : RefD r e) (hw : WFD e) (cols : List Key) (names : Hdr) (sel : List Bool)
     (hdr : Option Hdr) (lab)
     (hsel : sel = (List.range e.cells.length).map (fun i => keepCol cols i (e.nameAt i)))
-    (hnames : match e.names with | some ns => names = zipNames ns | none => True)
+    (hnames : match e.hdr with | some hd => names = hd | none => True)
     (hhdr : (DRow.keep r (keptIdx e cols) names sel (keptIdx e cols).length hdr).headers.toOption
-        = (e.names.map (fun ns => (keptIdx e cols).filterMap (fun i => ns[i]?))).map zipNames) :
+        = e.hdr.map (extHdr (keptIdx e cols))) :
     RefD (.keep r (keptIdx e cols) names sel (keptIdx e cols).length hdr)
-      ⟨(keptIdx e cols).filterMap (fun i => e.cells[i]?), e.names.map (fun ns => (keptIdx e cols).filterMap (fun i => ns[i]?)), lab, e.miss⟩ := by
+      ⟨(keptIdx e cols).filterMap (fun i => e.cells[i]?), e.hdr.map (extHdr (keptIdx e cols)), lab, e.miss⟩ := by
   have hin : ∀ i ∈ keptIdx e cols, i < e.cells.length := fun i hi => keptIdx_lt hi
   have hget := getElem?_filterMap_inrange e.cells (keptIdx e cols) hin
   have hpos : ∀ i, (DRow.keep r (keptIdx e cols) names sel (keptIdx e cols).length hdr).getPos i
@@ -613,63 +767,44 @@ theorem refD_keep {r : DRow} {e : EagerD} (h : RefD r e) (hw : WFD e) (cols : Li
   · simp [DRow.len, length_filterMap_inrange e.cells _ hin]
   · intro s v hb
     simp only [EagerD.byName, EagerD.colOf] at hb
-    cases hn : e.names with
+    cases hn : e.hdr with
     | none => simp [hn] at hb
-    | some ns =>
+    | some hd =>
       rw [hn] at hnames
       simp only [hn, Option.map] at hb
-      have hnl : ns.length = e.cells.length := (hw.names ns hn).1
-      have hnd : ns.Nodup := (hw.names ns hn).2
-      have hin' : ∀ i ∈ keptIdx e cols, i < ns.length := fun i hi => hnl ▸ hin i hi
-      cases hp : posOf ((keptIdx e cols).filterMap (fun i => ns[i]?)) s with
-      | none => simp [hp] at hb
-      | some k =>
-        simp only [hp] at hb
-        have h1 := posOf_some_getElem? hp
-        rw [getElem?_filterMap_inrange ns _ hin' k] at h1
-        rw [hget k] at hb
-        cases hk : (keptIdx e cols)[k]? with
-        | none => simp [hk] at h1
-        | some j =>
-          simp only [hk, Option.bind] at h1 hb
-          have hj : posOf ns s = some j := posOf_of_nodup hnd h1
-          simp only [DRow.getName, hnames, dget_zipNames, hj, h.pos j]
+      obtain ⟨hnn, _, _⟩ := (hdrWF_iff hd _).1 (hw.hdr hd hn)
+      rw [dget_extHdr _ hd hnn s] at hb
+      cases hj : dget hd s with
+      | none => simp [hj] at hb
+      | some j =>
+        simp only [hj, Option.bind] at hb
+        cases hk : posOf (keptIdx e cols) j with
+        | none => simp [hk] at hb
+        | some k =>
+          simp only [hk] at hb
+          rw [hget k, posOf_some_getElem? hk] at hb
+          simp only [Option.bind] at hb
+          simp only [DRow.getName, hnames, hj, h.pos j]
           exact idx_of_some hb
 
 theorem wfD_keep {e : EagerD} (hw : WFD e) (cols : List Key) (lab : Option (Nat × Option String))
     (hlab : ∀ i t, lab = some (i, t) → i < (keptIdx e cols).length) :
-    WFD ⟨(keptIdx e cols).filterMap (fun i => e.cells[i]?), e.names.map (fun ns => (keptIdx e cols).filterMap (fun i => ns[i]?)), lab, e.miss⟩ := by
+    WFD ⟨(keptIdx e cols).filterMap (fun i => e.cells[i]?), e.hdr.map (extHdr (keptIdx e cols)), lab, e.miss⟩ := by
   have hin : ∀ i ∈ keptIdx e cols, i < e.cells.length := fun i hi => keptIdx_lt hi
   constructor
-  · intro ns' hns'
-    cases hn : e.names with
-    | none => simp [hn] at hns'
-    | some ns =>
-      simp only [hn, Option.map, Option.some.injEq] at hns'
-      subst hns'
-      have hnl : ns.length = e.cells.length := (hw.names ns hn).1
-      have hin' : ∀ i ∈ keptIdx e cols, i < ns.length := fun i hi => hnl ▸ hin i hi
-      refine ⟨?_, ?_⟩
-      · simp [length_filterMap_inrange e.cells _ hin, length_filterMap_inrange ns _ hin']
-      · have := compress_range_map ns (fun i => keepCol cols i (e.nameAt i))
-        have hk : keptIdx e cols = (List.range ns.length).filter (fun i => keepCol cols i (e.nameAt i)) := by
-          simp [keptIdx, hnl]
-        rw [hk, ← this]
-        exact (compress_sublist _ _).nodup (hw.names ns hn).2
+  · intro h' hh'
+    cases hn : e.hdr with
+    | none => simp [hn] at hh'
+    | some hd =>
+      simp only [hn, Option.map, Option.some.injEq] at hh'
+      subst hh'
+      obtain ⟨hnn, hpn, _⟩ := (hdrWF_iff hd _).1 (hw.hdr hd hn)
+      simp only [length_filterMap_inrange e.cells _ hin]
+      exact extHdr_wf _ hd hnn hpn
   · intro i t hl
     simp only [length_filterMap_inrange e.cells _ hin]
     exact hlab i t hl
 
-
-theorem colOf_via_hdr {e : EagerD} {hd : Res Hdr} (hh : hd.toOption = e.names.map zipNames) {s : String} {i : Nat}
-    (hc : e.colOf s = some i) : ∃ h, hd = .ok h ∧ dget h s = some i := by
-  unfold EagerD.colOf at hc
-  cases hn : e.names with
-  | none => simp [hn] at hc
-  | some ns =>
-    simp only [hn] at hc
-    rw [hn] at hh
-    exact ⟨zipNames ns, toOption_eq_some hh, by rw [dget_zipNames, hc]⟩
 
 theorem evalPredD_of_eager {r : DRow} {e : EagerD} (h : RefD r e) (pred : Option Pred) (b : Bool)
     (hp : evalPredE pred e.miss e.get = .ok b) : evalPredD pred r = .ok b := by
@@ -705,7 +840,7 @@ theorem stageD_refines (st : Stage) {r : DRow} {e : EagerD} (h : RefD r e) (hw :
     split at he
     · rename_i hok
       simp at he; subst he
-      exact ⟨_, rfl, refD_head h ns, ⟨by intro ns' h'; simp at h'; subst h'; exact hok, hw.lab⟩⟩
+      exact ⟨_, rfl, refD_head h (zipNames ns), ⟨by intro h' hh'; simp at hh'; subst hh'; exact hok, hw.lab⟩⟩
     · simp at he
   | headMap m =>
     simp only [eagerStageD, applyD]
@@ -714,12 +849,7 @@ theorem stageD_refines (st : Stage) {r : DRow} {e : EagerD} (h : RefD r e) (hw :
     split at he
     · rename_i hok
       simp at he; subst he
-      have hz : m.filterMap hdrEntry = (m.map (·.1)).zipIdx 0 := headMap_zip m 0 (by
-        have := hok.1
-        have hl : m.length = e.cells.length := by simpa using congrArg List.length this
-        rw [this, List.range_eq_range', hl])
-      refine ⟨_, rfl, ?_, ⟨by intro ns' h'; simp at h'; subst h'; exact hok.2, hw.lab⟩⟩
-      rw [hz]; exact refD_head h _
+      exact ⟨_, rfl, refD_head h (m.filterMap hdrEntry), ⟨by intro h' hh'; simp at hh'; subst hh'; exact hok.2, hw.lab⟩⟩
     · simp at he
   | encodeSeq es =>
     simp only [eagerStageD, applyD]
@@ -733,7 +863,7 @@ theorem stageD_refines (st : Stage) {r : DRow} {e : EagerD} (h : RefD r e) (hw :
         simp [hs] at he; subst he
         have hlen : cells.length = e.cells.length := by
           have := sequence_length hs; simp [List.length_zipWith, hl] at this; exact this
-        exact ⟨_, rfl, refD_encode h es cells hl hs, ⟨fun ns hn => by simpa [hlen] using hw.names ns hn, fun i t hl' => by simpa [hlen] using hw.lab i t hl'⟩⟩
+        exact ⟨_, rfl, refD_encode h es cells hl hs, ⟨fun hd hn => by simpa [hlen] using hw.hdr hd hn, fun i t hl' => by simpa [hlen] using hw.lab i t hl'⟩⟩
     · simp at he
   | encodeMap m =>
     simp only [eagerStageD, applyD]
@@ -742,18 +872,17 @@ theorem stageD_refines (st : Stage) {r : DRow} {e : EagerD} (h : RefD r e) (hw :
     have hencs : encsOf m r = (List.range e.cells.length).map (fun i => encFor m (e.nameAt i) i) := by
       have hh := h.hdr
       unfold encsOf
-      cases hn : e.names with
+      cases hn : e.hdr with
       | none =>
         rw [hn] at hh
         obtain ⟨er, her⟩ := toOption_eq_none hh
         simp only [her, h.len]
         apply List.map_congr_left; intro i _; simp [EagerD.nameAt, hn]
-      | some ns =>
+      | some hd =>
         rw [hn] at hh
-        have hnl : ns.length = e.cells.length := (hw.names ns hn).1
-        simp only [toOption_eq_some hh, zipNames]
-        rw [sel_aux ns 0 0 (fun j nm => encFor m nm j), List.range_eq_range', hnl]
-        apply List.map_congr_left; intro i _; simp [EagerD.nameAt, hn]
+        obtain ⟨_, hpn, _⟩ := (hdrWF_iff hd _).1 (hw.hdr hd hn)
+        simp only [toOption_eq_some hh, h.len]
+        apply List.map_congr_left; intro i _; simp [EagerD.nameAt, hn, posName_eq_nameOf hd hpn i]
     have hzip : List.zipWith Enc.apply ((List.range e.cells.length).map (fun i => encFor m (e.nameAt i) i)) e.cells
         = e.cells.zipIdx.map (fun p => (encFor m (e.nameAt p.2) p.2).apply p.1) := by
       have := zipWith_range'_map Enc.apply (fun i => encFor m (e.nameAt i) i) e.cells 0
@@ -766,7 +895,7 @@ theorem stageD_refines (st : Stage) {r : DRow} {e : EagerD} (h : RefD r e) (hw :
       have hl : ((List.range e.cells.length).map (fun i => encFor m (e.nameAt i) i)).length = e.cells.length := by simp
       have hlen : cells.length = e.cells.length := by
         have := sequence_length hs; simp [List.length_zipWith] at this; exact this
-      refine ⟨_, by rw [hencs], refD_encode h _ cells hl hs, ⟨fun ns hn => by simpa [hlen] using hw.names ns hn, fun i t hl' => by simpa [hlen] using hw.lab i t hl'⟩⟩
+      refine ⟨_, by rw [hencs], refD_encode h _ cells hl hs, ⟨fun hd hn => by simpa [hlen] using hw.hdr hd hn, fun i t hl' => by simpa [hlen] using hw.lab i t hl'⟩⟩
   | drop cols pred =>
     simp only [eagerStageD, applyD]
     cases hp : evalPredE pred e.miss e.get with
@@ -813,7 +942,7 @@ theorem stageD_refines (st : Stage) {r : DRow} {e : EagerD} (h : RefD r e) (hw :
       split at he
       · rename_i hi
         simp at he; subst he
-        exact ⟨_, rfl, refD_label h i t _, ⟨hw.names, by intro i' t' hl; simp at hl; obtain ⟨rfl, _⟩ := hl; exact hi⟩⟩
+        exact ⟨_, rfl, refD_label h i t _, ⟨hw.hdr, by intro i' t' hl; simp at hl; obtain ⟨rfl, _⟩ := hl; exact hi⟩⟩
       · simp at he
     | name s =>
       simp only at he
@@ -826,7 +955,7 @@ theorem stageD_refines (st : Stage) {r : DRow} {e : EagerD} (h : RefD r e) (hw :
           simp at he; subst he
           obtain ⟨hd, hh, hdg⟩ := colOf_via_hdr h.hdr hc
           simp only [hh, hdg]
-          exact ⟨_, rfl, refD_label h i t _, ⟨hw.names, by intro i' t' hl; simp at hl; obtain ⟨rfl, _⟩ := hl; exact hi⟩⟩
+          exact ⟨_, rfl, refD_label h i t _, ⟨hw.hdr, by intro i' t' hl; simp at hl; obtain ⟨rfl, _⟩ := hl; exact hi⟩⟩
         · simp at he
   | enccat t =>
     cases t with
@@ -866,8 +995,12 @@ theorem buildD_refines (stages : List Stage) {r : DRow} {e : EagerD} (h : RefD r
         exact ih href hwf
 
 
-theorem hdrOK_names {hdr : Option (List String)} {n : Nat} (h : hdrOK hdr n = true) : ∀ ns, hdr = some ns → namesOK ns n := by
-  intro ns hn; subst hn; simpa [hdrOK] using h
+theorem hdrOK_wf {hdr : Option (List String)} {n : Nat} (h : hdrOK hdr n = true) :
+    ∀ hd, hdr.map zipNames = some hd → hdrWF hd n = true := by
+  intro hd hh
+  cases hdr with
+  | none => simp at hh
+  | some ns => simp at hh; subst hh; simpa [hdrOK] using h
 
 /-- the base rows: LazyDense (with or without loader / encoders / headers), ArffReader's rows, plain lists -/
 theorem baseD_refines (b : DBase) (e : EagerD) (hb : eagerBaseD b = .ok e) : RefD (baseD b) e ∧ WFD e := by
@@ -879,12 +1012,12 @@ theorem baseD_refines (b : DBase) (e : EagerD) (hb : eagerBaseD b = .ok e) : Ref
     simp only [eagerBaseD] at hb
     split at hb
     · rename_i hok
-      have hnames := hdrOK_names hok
+      have hwf := hdrOK_wf hok
       split at hb
       · simp at hb; subst hb
-        exact ⟨refD_lazy_plain _ none v hdr miss none (mkCell_get _ _) (Or.inl rfl), ⟨hnames, by simp⟩⟩
+        exact ⟨refD_lazy_plain _ none v (hdr.map zipNames) miss none (mkCell_get _ _) (Or.inl rfl), ⟨hwf, by simp⟩⟩
       · simp at hb; subst hb
-        exact ⟨refD_lazy_plain _ (some []) v hdr miss none (mkCell_get _ _) (Or.inr rfl), ⟨hnames, by simp⟩⟩
+        exact ⟨refD_lazy_plain _ (some []) v (hdr.map zipNames) miss none (mkCell_get _ _) (Or.inr rfl), ⟨hwf, by simp⟩⟩
       · rename_i es _
         split at hb
         · rename_i hl
@@ -894,8 +1027,8 @@ theorem baseD_refines (b : DBase) (e : EagerD) (hb : eagerBaseD b = .ok e) : Ref
             simp [hs] at hb; subst hb
             have hlen : cells.length = v.length := by
               have := sequence_length hs; simp [List.length_zipWith, hl] at this; exact this
-            exact ⟨refD_lazy_enc _ es v cells hdr miss none (mkCell_get _ _) hl hs,
-              ⟨fun ns hn => by simpa [hlen] using hnames ns hn, by simp⟩⟩
+            exact ⟨refD_lazy_enc _ es v cells (hdr.map zipNames) miss none (mkCell_get _ _) hl hs,
+              ⟨fun hd hn => by simpa [hlen] using hwf hd hn, by simp⟩⟩
         · simp at hb
     · simp at hb
   | arff cols raw miss =>
@@ -909,11 +1042,10 @@ theorem baseD_refines (b : DBase) (e : EagerD) (hb : eagerBaseD b = .ok e) : Ref
         have hl : (cols.map (Col.enc false)).length = raw.length := by simp [hok.1]
         have hlen : cells.length = raw.length := by
           have := sequence_length hs; simp [List.length_zipWith, hok.1] at this; exact this
-        have := refD_lazy_enc (.pending raw) (cols.map (Col.enc false)) raw cells (some (cols.map (·.name))) miss none rfl hl hs
-        exact ⟨this, ⟨by intro ns hn; simp at hn; subst hn; simpa [hlen] using hok.2, by simp⟩⟩
+        have := refD_lazy_enc (.pending raw) (cols.map (Col.enc false)) raw cells (some (zipNames (cols.map (·.name)))) miss none rfl hl hs
+        exact ⟨this, ⟨by intro hd hn; simp at hn; subst hn; simpa [hlen] using hok.2, by simp⟩⟩
     · simp at hb
 
-/-- the lazy pipeline refines the eager pipeline (dense) -/
 theorem dense_refines (b : DBase) (stages : List Stage) (e0 : EagerD) (hb : eagerBaseD b = .ok e0) :
     (∀ e, eagerD stages e0 = .ok (some e) → ∃ r, buildD stages (baseD b) = .ok (some r) ∧ RefD r e ∧ WFD e) ∧
     (eagerD stages e0 = .ok none → buildD stages (baseD b) = .ok none) := by
@@ -946,9 +1078,9 @@ theorem obsD_of_ref {r : DRow} {e : EagerD} (h : RefD r e) (a : Acc)
   | headers =>
     simp only [obsD, eagerObsD]
     have := h.hdr
-    cases hn : e.names with
+    cases hn : e.hdr with
     | none => rw [hn] at this; obtain ⟨er, her⟩ := toOption_eq_none this; simp [her, ofRes]
-    | some ns => rw [hn] at this; simp [toOption_eq_some this, ofRes]
+    | some hd => rw [hn] at this; simp [toOption_eq_some this, ofRes]
   | eq o =>
     cases o with
     | list l => simp [obsD, eagerObsD, eqList_of_ref h]
@@ -1173,174 +1305,8 @@ theorem feats_label_dense_cex' :
 def exBase : DBase := .lazy [.str "1", .str "2", .str "3"] true none none false
 def exStages : List Stage :=
   [.headNames ["a", "b", "c"], .encodeSeq [.toInt, .toInt, .toInt], .drop [.name "b"] none, .label (.name "c") (some "r")]
-
-
-/-! ## finite maps as association lists -/
-
-section fm
-variable {κ ν : Type} [DecidableEq κ]
-
-theorem dget_append (a b : List (κ × ν)) (k : κ) :
-    dget (a ++ b) k = match dget a k with | some v => some v | none => dget b k := by
-  induction a with
-  | nil => rfl
-  | cons p t ih =>
-    obtain ⟨x, y⟩ := p
-    simp only [List.cons_append, dget]
-    split <;> simp_all
-
-theorem dget_isSome_iff_mem (d : List (κ × ν)) (k : κ) : (dget d k).isSome ↔ k ∈ d.map (·.1) := by
-  induction d with
-  | nil => simp [dget]
-  | cons p t ih =>
-    obtain ⟨x, y⟩ := p
-    simp only [dget, List.map_cons, List.mem_cons]
-    split
-    · rename_i h; simp [h]
-    · rename_i h
-      rw [ih]
-      constructor
-      · intro hm; exact Or.inr hm
-      · intro hm; rcases hm with hm | hm
-        · exact absurd hm.symm h
-        · exact hm
-
-theorem dget_none_iff_not_mem (d : List (κ × ν)) (k : κ) : dget d k = none ↔ k ∉ d.map (·.1) := by
-  rw [← dget_isSome_iff_mem]; cases dget d k <;> simp
-
-theorem dget_some_mem {d : List (κ × ν)} {k : κ} {v : ν} (h : dget d k = some v) : (k, v) ∈ d := by
-  induction d with
-  | nil => simp [dget] at h
-  | cons p t ih =>
-    obtain ⟨x, y⟩ := p
-    simp only [dget] at h
-    split at h
-    · rename_i hx; simp at h; subst hx; subst h; simp
-    · exact List.mem_cons_of_mem _ (ih h)
-
-theorem dget_of_mem_nodup {d : List (κ × ν)} {k : κ} {v : ν} (hn : (d.map (·.1)).Nodup) (h : (k, v) ∈ d) : dget d k = some v := by
-  induction d with
-  | nil => simp at h
-  | cons p t ih =>
-    obtain ⟨x, y⟩ := p
-    simp only [List.map_cons, List.nodup_cons] at hn
-    simp only [List.mem_cons, Prod.mk.injEq] at h
-    simp only [dget]
-    rcases h with ⟨rfl, rfl⟩ | h
-    · simp
-    · have : x ≠ k := by
-        intro hx; subst hx
-        exact hn.1 (List.mem_map.2 ⟨(x, v), h, rfl⟩)
-      simp [this, ih hn.2 h]
-
-theorem dget_filter_key (d : List (κ × ν)) (q : κ → Bool) (k : κ) :
-    dget (d.filter (fun p => q p.1)) k = if q k then dget d k else none := by
-  induction d with
-  | nil => simp [dget]
-  | cons p t ih =>
-    obtain ⟨x, y⟩ := p
-    simp only [List.filter_cons]
-    by_cases hq : q x = true
-    · simp only [hq, if_true, dget]
-      by_cases hx : x = k
-      · subst hx; simp [hq]
-      · simp [hx, ih]
-    · simp only [hq, dget]
-      by_cases hx : x = k
-      · subst hx; simp [hq, ih]
-      · simp [hx, ih]
-
-/-- `dict(pairs)` of pairs with distinct keys is the list itself -/
-theorem foldl_dset_append (acc its : List (κ × ν))
-    (h : (its.map (·.1)).Nodup) (hd : ∀ k ∈ its.map (·.1), k ∉ acc.map (·.1)) :
-    its.foldl (fun d p => dset d p.1 p.2) acc = acc ++ its := by
-  induction its generalizing acc with
-  | nil => simp
-  | cons p t ih =>
-    obtain ⟨x, y⟩ := p
-    simp only [List.map_cons, List.nodup_cons] at h
-    have hx : x ∉ acc.map (·.1) := hd x (by simp)
-    have hset : dset acc x y = acc ++ [(x, y)] := by
-      clear ih hd
-      induction acc with
-      | nil => rfl
-      | cons q u ihu =>
-        obtain ⟨a, b⟩ := q
-        simp only [List.map_cons, List.mem_cons, not_or] at hx
-        have : a ≠ x := fun h' => hx.1 h'.symm
-        simp [dset, this, ihu hx.2]
-    simp only [List.foldl_cons, hset]
-    rw [ih (acc ++ [(x, y)]) h.2]
-    · simp
-    · intro k hk
-      simp only [List.map_append, List.map_cons, List.map_nil, List.mem_append, List.mem_singleton, not_or]
-      refine ⟨hd k (by simp [hk]), ?_⟩
-      intro hkx; subst hkx; exact h.1 hk
-
-end fm
-
-theorem toDict_of_nodup (its : Dict) (h : (its.map (·.1)).Nodup) : SRow.toDict its = its := by
-  have := foldl_dset_append ([] : Dict) its h (by simp)
-  simpa [SRow.toDict] using this
-
-/-! ### dedup / kdiff / kunion -/
-
-theorem mem_dedup {α} [DecidableEq α] (l : List α) (a : α) : a ∈ dedup l ↔ a ∈ l := by
-  induction l with
-  | nil => simp [dedup]
-  | cons x t ih =>
-    simp only [dedup]
-    split
-    · rename_i hx
-      rw [ih]; constructor
-      · exact fun h => List.mem_cons_of_mem _ h
-      · intro h; rcases List.mem_cons.1 h with rfl | h
-        · exact hx
-        · exact h
-    · simp [ih]
-
-theorem nodup_dedup {α} [DecidableEq α] (l : List α) : (dedup l).Nodup := by
-  induction l with
-  | nil => simp [dedup]
-  | cons x t ih =>
-    simp only [dedup]
-    split
-    · exact ih
-    · rename_i hx
-      exact List.nodup_cons.2 ⟨by rwa [mem_dedup], ih⟩
-
-theorem mem_kdiff (b a : List Key) (k : Key) : k ∈ kdiff b a ↔ k ∈ b ∧ k ∉ a := by
-  simp [kdiff, mem_dedup, List.mem_filter]
-
-theorem nodup_kdiff (b a : List Key) : (kdiff b a).Nodup := nodup_dedup _
-
-theorem mem_kunion (a b : List Key) (k : Key) : k ∈ kunion a b ↔ k ∈ a ∨ k ∈ b := by
-  simp only [kunion, List.mem_append, mem_kdiff]
-  by_cases h : k ∈ a <;> simp [h]
-
-theorem nodup_kunion (a b : List Key) (ha : a.Nodup) : (kunion a b).Nodup := by
-  simp only [kunion]
-  rw [List.nodup_append]
-  refine ⟨ha, nodup_kdiff _ _, ?_⟩
-  intro x hx y hy hxy
-  subst hxy
-  exact ((mem_kdiff _ _ _).1 hy).2 hx
-
-/-- two duplicate-free lists with the same members have the same length -/
-theorem length_eq_of_same_members {α} (l1 l2 : List α) (h1 : l1.Nodup) (h2 : l2.Nodup) (h : ∀ a, a ∈ l1 ↔ a ∈ l2) :
-    l1.length = l2.length :=
-  ((List.perm_ext_iff_of_nodup h1 h2).2 h).length_eq
-
-theorem kdiff_congr (b a a' : List Key) (h : ∀ k, k ∈ a ↔ k ∈ a') : kdiff b a = kdiff b a' := by
-  simp only [kdiff]
-  congr 1
-  apply List.filter_congr
-  intro k _
-  have := h k
-  by_cases hk : k ∈ a
-  · simp [hk, this.1 hk]
-  · have hk' : k ∉ a' := fun h' => hk (this.2 h')
-    simp [hk, hk']
+def exStagesMap : List Stage :=
+  [.headMap [("z", .pos 2), ("x", .pos 0)], .encodeMap [(.name "z", .toInt)], .drop [.name "x"] none]
 
 
 
